@@ -275,6 +275,80 @@ def reuse_history(rep, states, tier, rng):
                 partner[D] = (op, data, grid)
 
 
+def large_reuse(rep, tier, rng):
+    """re-use of right-hand-side entries only happens on component grids with >= 200 points: a grid sequence as the dimension-wise
+    refinement produces it (solve -> post_processing -> refined grid -> solve ...) on 15x15 and larger grids; every assembled right-hand side
+    must still be the vector of sample means of the hats (computed here directly from the hat definition) and the matrix Gram + lambda I"""
+    from sparseSpACE.GridOperation import DensityEstimation
+    from sparseSpACE.Grid import GlobalTrapezoidalGrid
+    from sparseSpACE.ComponentGridInfo import ComponentGridInfo
+
+    def levels_of(coords):
+        out = []
+        for g in coords:
+            lv = []
+            for x in g:
+                k = int(round(x * 64))
+                if k in (0, 64):
+                    lv.append(0)
+                else:
+                    t = 0
+                    while k % 2 == 0:
+                        k //= 2
+                        t += 1
+                    lv.append(6 - t)
+            out.append(lv)
+        return out
+
+    def hat(x, l, c, r):
+        x = np.asarray(x, dtype=float)
+        return np.where(x <= c, np.clip((x - l) / (c - l), 0, None), np.clip((r - x) / (r - c), 0, None)) * ((x > l) & (x < r))
+    base = [k / 16 for k in range(17)]
+    seqs = [[(base, base), (sorted(set(base + [1 / 32, 3 / 32])), base), (sorted(set(base + [1 / 32, 3 / 32])), sorted(set(base + [31 / 32])))],
+            [(base, base), (base, sorted(set(base + [17 / 32, 19 / 32]))), (sorted(set(base + [15 / 32])), sorted(set(base + [17 / 32, 19 / 32, 37 / 64])))]]
+    for si, seq in enumerate(seqs if tier == 'thorough' else seqs[:1]):
+        for lam, with_classes in ((0.0, False), (0.01, True)):
+            r = np.random.RandomState(rng.randint(0, 10 ** 6))
+            data = np.round(r.rand(40, 2) * 0.98 + 0.01, 6)
+            data[:6] = [[k / 16, j / 32] for k, j in ((3, 5), (8, 16), (1, 1), (15, 31), (2, 3), (8, 17))]      # samples on grid lines
+            classes = np.where(r.rand(40) < 0.5, 1.0, -1.0) if with_classes else None
+            grid = GlobalTrapezoidalGrid(a=np.zeros(2), b=np.ones(2), boundary=False)
+            op = DensityEstimation(data, 2, grid=grid, masslumping=False, lambd=lam, classes=classes, pre_scaled_data=True, reuse_old_values=True)
+            op.max_levels = [0, 0]
+            op.sorted_data = [np.argsort(data[:, d]) for d in range(2)]      # what the library's refinement-container initialisation sets up
+            for k, (gx, gy) in enumerate(seq):
+                coords = [list(gx), list(gy)]
+                levels = levels_of(coords)
+                case = {'sequence': si, 'step': k, 'lambda': lam, 'classes': with_classes, 'grid_sizes': [len(gx) - 2, len(gy) - 2]}
+                try:
+                    with impl.quiet(), impl.watchdog(300):
+                        grid.set_grid(coords, levels)
+                        alphas = op.solve_density_estimation_dimension_wise(coords, levels, ComponentGridInfo([max(l) for l in levels], 1))
+                        b = np.array(op.new_B[str([max(l) for l in levels])], dtype=float)
+                        op.surpluses = {tuple(max(l) for l in levels): alphas}      # as the component-grid evaluation of the library stores them
+                        op.post_processing()
+                except impl.Timeout:
+                    rep.exclude('large reuse: timeout %s' % case)
+                    break
+                except Exception as ex:
+                    rep.violation('C16_NoException', {'dim': 2, 'reuse': True, 'large': True, 'exception': type(ex).__name__}, dict(case, exception=repr(ex)), what='large-grid reuse %s raised %r' % (case, ex))
+                    break
+                sgn = np.ones(len(data)) if classes is None else classes
+                exp = []
+                for i in range(1, len(gx) - 1):
+                    hx = hat(data[:, 0], gx[i - 1], gx[i], gx[i + 1])
+                    for j in range(1, len(gy) - 1):
+                        exp.append(float(np.sum(hx * hat(data[:, 1], gy[j - 1], gy[j], gy[j + 1]) * sgn) / len(data)))
+                exp = np.array(exp)
+                rep.count(1, key=('large-reuse', si, k, lam, with_classes))
+                ok = b.shape == exp.shape and np.allclose(b, exp, rtol=1e-11, atol=1e-14)
+                rep.residual('large_grid_reuse_rhs', bool(ok))
+                if not ok:
+                    rep.violation('C16_RhsIsSampleMean', {'dim': 2, 'reuse': True, 'large': True}, dict(case, max_deviation=float(np.max(np.abs(b - exp))) if b.shape == exp.shape else None),
+                                  what='re-used right-hand side on a %dx%d grid (step %d of a refinement sequence) differs from the sample means of the hats' % (len(gx) - 2, len(gy) - 2, k))
+                    break
+
+
 def run(tier, seed):
     rep = Report(PROP, tier, seed, 'model_checking')
     rng = random.Random(seed)
@@ -284,6 +358,7 @@ def run(tier, seed):
     for st in states:
         test_state(rep, st, tier, rng)
     reuse_history(rep, states, tier, rng)
+    large_reuse(rep, tier, rng)
     rep.cov['spec_states_tested_on_impl'] = len(states)
     rep.cov['exhaustive'] = tier == 'thorough'
     rep.cov['rule'] = ('states of HatSystems.tla: tensor products (D=1,2) of refinement-tree grids on an 8-lattice x 5 data sets (grid-line and boundary samples, class labels) '
